@@ -11,16 +11,16 @@ package log
 
 //@ ghost func lfile(string, uint64) uint64
 
-//@ func segmentFile
+//@ func segmentFile params(dir, prevIndex)
 //@   trusted
 //@   ensures result0 == lfile(dir, prevIndex)
 
-//@ func connect
+//@ func connect params(s1, s2)
 //@   props C02 C03 C04 C13 C14
 //@   modifies s1.next, s2.prev
 //@   ensures s1.next == s2 && s2.prev == s1
 
-//@ func disconnect
+//@ func disconnect params(s1, s2)
 //@   props C02 C03 C04 C13 C14
 //@   modifies s1.next, s2.prev
 //@   ensures s1.next == nil && s2.prev == nil
@@ -28,7 +28,7 @@ package log
 // T-fs (trusted): creating or mapping a segment file. A file that did not exist is created empty
 // (createSegment: zero header); a file that exists was left by a run that kept CrashOK at every
 // crash point (C14), so what is mapped is a well-formed, fully durable segment.
-//@ func openSegment
+//@ func openSegment params(dir, prevIndex, opt)
 //@   trusted
 //@   modifies fs
 //@   ensures result1 != nil ==> result0 == nil
@@ -46,7 +46,7 @@ package log
 //@ pure NoStale(l *Log) bool = forall(j, fs[lfile(l.dir, j)] ==> l.gidx[j] != 0 && l.gin[l.gidx[j]] && SName(l.gidx[j]) == lfile(l.dir, j) && SP(l.gidx[j]) == j)
 //@ axiom [T-std.segment-names] forall(d, i, j, lfile(d, i) == lfile(d, j) ==> i == j)
 
-//@ func (*Log).Commit
+//@ func (*Log).Commit params(l)
 //@   props C06 C10 C13 C14
 //@   requires LogShape(l) && l.index == nil
 //@   modifies segment.synced, elems(uint8), mmap.File.gdur
@@ -56,7 +56,7 @@ package log
 
 // Append: the entry becomes the last one, nothing else moves; a full segment is committed before the
 // next one is linked, so at most the last segment is ever dirty.
-//@ func (*Log).Append
+//@ func (*Log).Append params(l, b)
 //@   props C02 C03 C04 C06 C10 C13 C14
 //@   requires LogShape(l) && l.index == nil
 //@   requires LogLast(l) < 18446744073709551614 && len(b) <= 1099511627776 && l.opt.SegmentSize >= 1024
@@ -74,14 +74,14 @@ package log
 // ---------------------------------------------------------------------------
 // closing and deleting segment files
 
-//@ func (*mmap.File).Name
+//@ func (*mmap.File).Name params(f)
 //@   inline
 // T-mmap (trusted): unmapping touches neither the bytes nor the durable image
-//@ func (mmap.File).Close
+//@ func (mmap.File).Close params(f)
 //@   trusted
 //@   ensures true
 
-//@ func (*segment).close
+//@ func (*segment).close params(s)
 //@   props C06 C10 C13 C14
 //@   requires SegGood(s)
 //@   modifies s.synced, contents(s.file.Data), s.file.gdur
@@ -90,7 +90,7 @@ package log
 //@   ensures [C14.close-keeps-good] SegGood(s) && s.n == old(s.n) && s.size == old(s.size)
 //@   crash_inv [C14.close-crash-ok] CrashOK0(s)
 
-//@ func (*segment).remove
+//@ func (*segment).remove params(s)
 //@   props C13 C14
 //@   requires s.file != nil
 //@   modifies fs
@@ -98,7 +98,7 @@ package log
 //@   ensures result0 != nil ==> fs[s.file.name] == old(fs[s.file.name])
 //@   ensures forall(p, p != s.file.name ==> fs[p] == old(fs[p]))
 
-//@ func (*segment).closeAndRemove
+//@ func (*segment).closeAndRemove params(s)
 //@   props C06 C10 C13 C14
 //@   requires SegGood(s)
 //@   modifies s.synced, contents(s.file.Data), s.file.gdur, fs
@@ -109,7 +109,7 @@ package log
 
 // RemoveLTE: whole segments below the bound go away, from the front; nothing else moves (C09, C13)
 //@ pure SegSame(x *segment) bool = x.n == old(x.n) && x.prevIndex == old(x.prevIndex) && x.size == old(x.size) && x.file == old(x.file) && x.next == old(x.next)
-//@ func (*Log).RemoveLTE
+//@ func (*Log).RemoveLTE params(l, i)
 //@   props C02 C03 C04 C06 C10 C13 C14
 //@   requires LogShape(l) && l.index == nil
 //@   modifies l.first, l.gin, segment.synced, segment.next, segment.prev, elems(uint8), mmap.File.gdur, fs
@@ -125,7 +125,7 @@ package log
 // empty segment at lastIndex is created. With no stale segment file in the directory the new segment is empty.
 //@ pure TailOK(l *Log, x *segment) bool = SegGood(x) && (x.next != nil ==> l.gin[ref(x.next)] && x.next.gord == x.gord + 1) && (x.next == nil ==> x == l.last) && x.gord <= l.last.gord
 //@ pure SOrd(x *segment) int = x.gord
-//@ func (*Log).Reset
+//@ func (*Log).Reset params(l, lastIndex)
 //@   props C02 C03 C04 C09 C10 C13 C14
 //@   requires LogShape(l) && l.index == nil
 //@   requires [C14.no-stale-segment] NoStale(l)
@@ -139,7 +139,7 @@ package log
 //@   loop 1 invariant forall(x, old(l.gin[x]) ==> SegSame(x) && SName(x) == old(SName(x))) && forall(x, old(l.gin[x]) && !l.gin[x] ==> !fs[SName(x)]) && forall(p, fs[p] ==> old(fs[p]))
 
 // CanLTE: the compaction point RemoveLTE(i) can reach: a segment boundary, never beyond i (C09)
-//@ func (*Log).CanLTE
+//@ func (*Log).CanLTE params(l, i)
 //@   props C09 C13 C14
 //@   requires LogShape(l) && l.index == nil
 //@   ensures [C09+C13.can-lte-bound] result0 >= LogPrev(l) && (result0 > LogPrev(l) ==> result0 <= i)
@@ -147,7 +147,7 @@ package log
 //@   loop 1 invariant s != nil && InList(l, s) && SegGood(s) && s.prevIndex >= l.first.prevIndex && (s.prevIndex > l.first.prevIndex ==> s.prevIndex <= i)
 
 // Close: everything is committed before the files are unmapped (C14, C10)
-//@ func (*Log).Close
+//@ func (*Log).Close params(l)
 //@   props C06 C10 C13 C14
 //@   requires LogShape(l) && l.index == nil
 //@   modifies segment.synced, elems(uint8), mmap.File.gdur
@@ -186,7 +186,7 @@ package log
 //@   props C10 C13 C14
 //@   requires 0 <= i && i < len(*offs) && 0 <= j && j < len(*offs)
 //@   ensures [C14+C13.ascending-order] result0 == ((*offs)[i] < (*offs)[j])
-//@ func segments
+//@ func segments params(dir)
 //@   props C10 C13 C14
 //@   modifies sortgen, gsegm, gsegsort
 //@   ensures result1 == nil ==> base(result0) == 0 && len(result0) < 4611686018427387904
@@ -199,7 +199,7 @@ package log
 //@   loop 1 invariant forall(k, 0 <= k && k < len(offs) ==> raw(matches, k) == lfile(dir, raw(offs, k)))
 
 //@ pure OpenedIdx(dir string, S map[uint64]bool, I map[uint64]uint64, j uint64) bool = I[j] != 0 && S[I[j]] && SName(I[j]) == lfile(dir, j) && SP(I[j]) == j
-//@ func openSegments
+//@ func openSegments params(dir, opt)
 //@   props C10 C13 C06
 //@   requires opt.SegmentSize >= 1024
 //@   modifies fs, gopen, gopenIdx, sortgen, gsegm, gsegsort, segment.next, segment.prev, segment.gord
@@ -217,12 +217,12 @@ package log
 //@   loop 1 invariant forall(j, fs[lfile(dir, j)] ==> OpenedIdx(dir, gopen, gopenIdx, j) || (old(fs[lfile(dir, j)]) && SegPos(dir, j) > 1 + rangeindex))
 
 //@ pure SNext(x *segment) uint64 = ref(x.next)
-//@ func (Options).validate
+//@ func (Options).validate params(o)
 //@   trusted
 //@   ensures result0 == nil ==> o.SegmentSize >= 1024
 
 // Open: what Append / Reset / RemoveLTE require of a log object holds for a freshly opened one (C14, C10)
-//@ func Open
+//@ func Open params(dir, dirMode, opt)
 //@   props C10 C13 C06 C14
 //@   modifies fs, gopen, gopenIdx, sortgen, gsegm, gsegsort, segment.next, segment.prev, segment.gord, segment.synced, elems(uint8), mmap.File.gdur
 //@   ensures result1 != nil ==> result0 == nil
@@ -270,7 +270,7 @@ package log
 //@   ensures result0 == nil ==> old(fs[oldpath]) && fs[newpath] && !fs[oldpath] && fdone[newpath] == old(fdone[oldpath]) && forall(p, p != newpath && p != oldpath ==> fs[p] == old(fs[p]) && fdone[p] == old(fdone[p]))
 //@   ensures result0 != nil ==> fs == old(fs) && fdone == old(fdone)
 
-//@ func createSegment
+//@ func createSegment params(name, opt)
 //@   props C10 C13 C14
 //@   requires !fs[name]
 //@   modifies fs, fdone, fsize
